@@ -758,6 +758,13 @@ func (fr *Frame) binop(st *State, op token.Token, a, b Val, rt types.Type) Val {
 			return bl(tLe(y, x))
 		case token.SHL, token.SHR, token.AND, token.OR, token.XOR, token.AND_NOT:
 			name := map[token.Token]string{token.SHL: "bshl", token.SHR: "bshr", token.AND: "band", token.OR: "bor", token.XOR: "bxor", token.AND_NOT: "bandnot"}[op]
+			if name == "band" && !vc.uf["band"] {
+				vc.declareUF(name, "(Int Int) Int")
+				// x & y with a non-negative operand lies between 0 and that operand
+				vc.decls = append(vc.decls,
+					"(assert (forall ((x Int) (y Int)) (! (=> (<= 0 y) (and (<= 0 (band x y)) (<= (band x y) y))) :pattern ((band x y)))))",
+					"(assert (forall ((x Int) (y Int)) (! (=> (<= 0 x) (and (<= 0 (band x y)) (<= (band x y) x))) :pattern ((band x y)))))")
+			}
 			vc.declareUF(name, "(Int Int) Int")
 			return bl(sx(name, x, y))
 		}
